@@ -1,6 +1,6 @@
 """C07 — decimal conversion accuracy. Spec: BigNat.tla, MBFBig.tla, DecimalBig.tla (the spec parses the digit strings),
 trace spec C07_Trace (print / read clauses evaluated with exact arithmetic)."""
-import io, re, time
+import io, os, re, time
 from fractions import Fraction
 from ..session import Sess, find_errors
 from .. import core
@@ -216,11 +216,16 @@ def token_number(code):
 def run(ctx):
     ctx.cov['rule'] = ('one event per conversion performed by the real interpreter, judged by TLC (C07_Trace) against the exact value; '
                        'distinct = distinct (direction, path/form, value bytes or text); non-trivial = all except zero values')
-    r = ctx.model_check('BigNat_MC', ctx.pick('BigNat_MC.cfg', 'BigNat_MC_big.cfg'), workers=ctx.pick(4, 8),
-                        require_actions=False)
-    ctx.cov['bignat_selfcheck_states'] = r['distinct']
-    if r['distinct'] < 1000:
-        raise core.MachineryError('BigNat self-check explored only %d states' % r['distinct'])
+    if os.environ.get('VF_SKIP_ORACLE_SELFCHECK') == '1':
+        # only for mutant testing of the implementation (the oracle itself is unchanged there)
+        print('note: BigNat self-check skipped (VF_SKIP_ORACLE_SELFCHECK=1)')
+        ctx.cov['bignat_selfcheck_states'] = 'skipped'
+    else:
+        r = ctx.model_check('BigNat_MC', ctx.pick('BigNat_MC.cfg', 'BigNat_MC_big.cfg'), workers=ctx.pick(4, 8),
+                            require_actions=False)
+        ctx.cov['bignat_selfcheck_states'] = r['distinct']
+        if r['distinct'] < 1000:
+            raise core.MachineryError('BigNat self-check explored only %d states' % r['distinct'])
     t0 = time.time()
     s = Sess()
     from pcbasic.basic.values import values as V, numbers as N
@@ -271,8 +276,9 @@ def run(ctx):
                 ev_print('STR$', b, lines[2][:-1], cls)
         if idx % 3 == 0 and len(b) in (4, 8):
             # LIST of a hand-made number token (binds lister + to_str with type sign)
-            line = b'\x00\x00\x00\x0a\x00X\xe7' + (b'\x1d' if len(b) == 4 else b'\x1f') + bytes(bytearray(b)) + b'\x00'
-            st = codestream.TokenisedStream(line)
+            line = b'\x00\x01\x01\x0a\x00X\xe7' + (b'\x1d' if len(b) == 4 else b'\x1f') + bytes(bytearray(b)) + b'\x00'
+            st = codestream.TokenisedStream()
+            st.write(line)
             st.seek(1)
             try:
                 num, text, _ = s.impl.lister.detokenise_line(st)
@@ -304,13 +310,20 @@ def run(ctx):
                        'cls': cls})
         cnt['read/' + via] = cnt.get('read/' + via, 0) + 1
 
-    def decorate(t, sign=True, sigil=True, blank=' '):
-        if sigil and not re.search('[EDed]', t) and rng.random() < 0.2:
+    def decorate(t, sign=True, sigil=True, blank=' ', mantissa_only=False):
+        """Add a type sign, a sign, blanks.  mantissa_only: blanks only before the exponent letter (program text and DATA
+        items are cut into tokens by the tokeniser: a blank after the exponent letter ends the literal there)."""
+        if sigil and not re.search('[EDed!#]', t) and rng.random() < 0.2:
             t += rng.choice('!#')
-        if sign and rng.random() < 0.3:
+        if sign and t[:1] not in ('+', '-') and rng.random() < 0.3:
             t = rng.choice('+-') + t
         if blank and rng.random() < 0.25:
-            t = blanks(rng, t, blank)
+            if mantissa_only:
+                m = re.search('[EDed!#]', t)
+                k = m.start() if m else len(t)
+                t = blanks(rng, t[:k], blank).lstrip(blank) + t[k:]
+            else:
+                t = blanks(rng, t, blank)
         return t
 
     texts = gen_texts(rng, ctx.pick(4200, 90000))
@@ -356,7 +369,7 @@ def run(ctx):
                 internal('VAL', repr(r[:2])[:300], cls)
         elif sel == 1:
             # program literal through the tokeniser (unsigned; blanks may be embedded), then LIST of the stored line
-            t = decorate(t0_, sign=False).strip(' ')
+            t = decorate(t0_.lstrip('+-'), sign=False, mantissa_only=True).strip(' ')
             r = s.ex('10 X#=' + t)
             code = bytes(s.impl.program.bytecode.getvalue())
             tok = token_number(code) if r[0] == 'ok' else None
@@ -388,7 +401,7 @@ def run(ctx):
                 ev_read('INPUT', t.encode('latin-1'), 'val', 0, bytearray(r2[1]), True, cls)
         elif sel == 3 and not in_danger(t0_):
             # READ from a DATA line into a double variable
-            t = decorate(t0_, blank=' ')
+            t = decorate(t0_, blank=' ', mantissa_only=True)
             r = s.ex('10 DATA ' + t)
             r1 = s.ex('RESTORE:READ A#')
             r2 = s.ev('MKD$(A#)')
